@@ -1,6 +1,6 @@
 (* C08 — layout-mapping conversions preserve the mapping; mapping equality is sound. *)
 From Coq Require Import ZArith List.
-From MdspanVerif Require Import MachInt ListAux Layouts LayoutSpec LayoutProofs Extents ExtentsProofs Convert ConvertProofs.
+From MdspanVerif Require Import MachInt ListAux Layouts LayoutSpec LayoutProofs Extents ExtentsProofs Convert ConvertProofs Constraints ConstraintsProofs.
 Import ListNotations.
 Local Open Scope Z_scope.
 
@@ -80,3 +80,17 @@ Theorem C08_lr_eq_iff_extents : forall (ta : ity) (ea : list Z) (tb : ity) (eb :
   (map_eq ta (MRight ea) tb (MRight eb) = Ok (Some true) <-> ea = eb).
 Proof. exact lr_eq_iff_extents. Qed.
 Print Assumptions C08_lr_eq_iff_extents.
+
+(* conversion to layout_stride is total: every valid mapping of any of the five layouts over a non-empty index space
+   is, with its own strides, a valid layout_stride mapping (in its own and in every wider index type), and the
+   converting constructor yields exactly it *)
+Theorem C08_valid_as_stride : forall (t : ity) (m : mapping), valid t m -> has_zero (exts m) = false ->
+  valid t (MStride (exts m) (spec_strides m)).
+Proof. exact valid_as_stride. Qed.
+Print Assumptions C08_valid_as_stride.
+Theorem C08_to_stride_total : forall (ts tt : ity) (tpat : pattern) (m : mapping),
+  valid ts m -> has_zero (exts m) = false -> imax ts <= imax tt -> conv_pre tt tpat (exts m) ->
+  conv_mapping ts m (mkmt tt tpat KStride None) = Ok (MStride (exts m) (spec_strides m)) /\
+  valid tt (MStride (exts m) (spec_strides m)).
+Proof. exact to_stride_total. Qed.
+Print Assumptions C08_to_stride_total.
